@@ -737,6 +737,18 @@ func runC02(r *Run) {
 	// of x/evm/statedb is part of this property too — the same rule code as C05 R4
 	r.Rule("R13", "see C05 R10 (imported): what a mid-transaction StateDB.Commit (the flush every precompile starts with) wrote is rewritten by the next Commit even when a reverted frame removed the address from the journal's dirty set — otherwise a payment made in a frame that calls a precompile and reverts stays with the payee while the payer's balance is restored by minting")
 	r.Import("R13/C05.", []string{"R10"}, runC05)
+	r.Rule("R16", "PATH.coins-without-an-account-exist-for-the-evm: the bank can hold coins for an address that has no auth account (a balance of the bank genesis; the repository's own test genesis has one). If the EVM keeper's GetAccount answers 'no such account' for it, the StateDB creates a fresh object with balance 0 on the first write to the address — a 1 wei transfer, a zero-value SELFDESTRUCT naming it — and Commit 'reconciles' the bank balance down to that: the coins are burned. GetAccount therefore returns nil only after it has looked at the bank balance (GetBalance) in that call")
+	if ga, ok := P.FnOK("(*x/evm/keeper.Keeper).GetAccount"); ok {
+		isBal := isCallMatching(func(ci CallInfo) bool { return ci.Name == "GetBalance" })
+		w := PathQuery{Fn: ga, Block: isBal, Target: func(in ssa.Instruction) bool {
+			ret, ok := in.(*ssa.Return)
+			return ok && len(ret.Results) == 1 && isNilConst(ret.Results[0])
+		}}.Search()
+		r.Check(w == nil, "R16", fnID(ga)+"#nil-only-after-the-bank-balance", P.Pos(fnPos(ga)), "every `return nil` follows a read of the address's bank balance",
+			"the EVM keeper's GetAccount answers 'no such account' without looking at the bank balance: an address that holds coins but has no auth account loses its whole balance on the first EVM write to it (burned at Commit)", P.witness(w)...)
+	} else {
+		r.Bad("R16", "anchor/Keeper.GetAccount", "", "not found")
+	}
 	r.Rule("R15", "PATH.absence-is-asked-afresh: precompiles create accounts behind the StateDB's back (a bank credit to a fresh withdraw address, a new validator's pool share), so 'this address has no account' is a fact about the SDK state that the StateDB may not remember: getStateObject answers nil only on a path on which this very invocation asked the keeper (GetAccount) — with a remembered absence, value sent to the address later in the transaction goes through CreateAccount with balance 0 and Commit overwrites what the precompile credited")
 	if gso, ok := P.FnOK("(*x/evm/statedb.StateDB).getStateObject"); ok {
 		isAsk := isCallMatching(func(ci CallInfo) bool { return ci.Name == "GetAccount" && ci.Invoke })
